@@ -1,6 +1,7 @@
 package main
 
 import (
+	"strconv"
 	"bytes"
 	"fmt"
 	origfmt "fmt"
@@ -150,14 +151,15 @@ func writerOp(w redact.SafeWriter, o bop) bool {
 		w.SafeRune(redact.SafeRune(o.n))
 	case "sn":
 		// payload is the rendering of the number
-		var v int64
-		origfmt.Sscanf(string(o.p), "%d", &v)
 		switch o.n {
 		case 1:
+			v, _ := strconv.ParseUint(string(o.p), 10, 64)
 			w.SafeUint(redact.SafeUint(v))
 		case 2:
+			v, _ := strconv.ParseFloat(string(o.p), 64)
 			w.SafeFloat(redact.SafeFloat(v))
 		default:
+			v, _ := strconv.ParseInt(string(o.p), 10, 64)
 			w.SafeInt(redact.SafeInt(v))
 		}
 	case "us":
@@ -329,6 +331,12 @@ func opAlphabet(kind string, small bool) []bop {
 			a = append(a, bop{tag: "sr", n: v}, bop{tag: "ur", n: v})
 		}
 		a = append(a, bop{tag: "sn", p: []byte("-12")})
+		if !small {
+			// the numeric entry points at the ends of their ranges (the payload is what fmt prints for the number)
+			a = append(a, bop{tag: "sn", p: []byte("18446744073709551615"), n: 1}, bop{tag: "sn", p: []byte("9223372036854775808"), n: 1},
+				bop{tag: "sn", p: []byte("-9223372036854775808")}, bop{tag: "sn", p: []byte("1e+21"), n: 2}, bop{tag: "sn", p: []byte("-2.5"), n: 2},
+				bop{tag: "sn", p: []byte("7"), n: 1})
+		}
 		if kind == "bld" {
 			n := len(printSets)
 			if small {
